@@ -5,8 +5,10 @@ Driver ops for the text-level model of the raw-HTML tokenizer + extractor (C04).
                           `extract.ev` (`Driver/ExtractOps.lean`), or `ood`
 `htmltok.extract <src>`   `encList(lines)|encList(stash)` of the preprocessor (`HtmlBlockPreprocessor.run`), or `ood`
 `htmltok.state <src>`     the whole final extractor state, as `extract.state`, or `ood`
+`converth <tab> <html|xhtml> <src>`   `PipelineH.convertH`: `ok <str>` | `oof` | `err` | `ood`
 -/
 import MdVerif.Model.ExtractText
+import MdVerif.Model.PipelineH
 import Driver.Proto
 
 namespace Driver
@@ -38,6 +40,11 @@ def htmlTokHandler : Handler := fun op args =>
       some ("|".intercalate [encBool st.inraw, encBool st.intail, encList st.stack.reverse, encList st.cache,
         encList st.cleandoc, encList st.stash])
     | none => some "ood"
+  | "converth", [tab, fmt, src] =>
+    let cfg : MdVerif.Pipeline.Cfg := { tab := decNat tab, fmt := if fmt == "html" then .html else .xhtml }
+    some (match MdVerif.PipelineH.convertH cfg (decStr src) with
+          | .ok s => "ok " ++ encStr s
+          | .oof => "oof" | .err => "err" | .ood => "ood")
   | "htmltok.events", _ | "htmltok.extract", _ | "htmltok.state", _ => some "bad-args"
   | _, _ => none
 
